@@ -443,10 +443,15 @@ def r02_c(ctx):
     n = 0
     for fd in mod.functions.values():
         ps = fd.params()
-        dec = {x.target.id for x in ast.walk(fd.node) if isinstance(x, ast.AugAssign) and isinstance(x.target, ast.Name)
-               and x.target.id in ps}
-        ret = {x.value.id for x in ast.walk(fd.node) if isinstance(x, ast.Return) and isinstance(x.value, ast.Name)}
-        counted = sorted(dec & ret)
+        # a count parameter that is decremented and returned -- directly, or through a local copy (`left = n; left -= 1; return left`)
+        copies = {}
+        for x in ast.walk(fd.node):
+            if isinstance(x, ast.Assign) and len(x.targets) == 1 and isinstance(x.targets[0], ast.Name) \
+                    and isinstance(x.value, ast.Name) and x.value.id in ps:
+                copies[x.targets[0].id] = x.value.id
+        dec0 = {x.target.id for x in ast.walk(fd.node) if isinstance(x, ast.AugAssign) and isinstance(x.target, ast.Name)}
+        ret0 = {x.value.id for x in ast.walk(fd.node) if isinstance(x, ast.Return) and isinstance(x.value, ast.Name)}
+        counted = sorted({(v if v in ps else copies.get(v)) for v in (dec0 & ret0) if v in ps or v in copies} - {None})
         if not counted:
             continue
         for p in counted:
